@@ -53,6 +53,30 @@ CHECKS['C11'] = dict(
     design='5/C11',
 )
 
+CHECKS['C12'] = dict(
+    level='exploration',
+    text=("Bounded-exhaustive: S = every pattern with <=3/4 constructor-or-notation applications (propositional notations "
+          "nested arbitrarily) plus every shipped notation (propositional, definedness, Kore, sorted/Kore quantifiers, forall, "
+          "n-ary applications) at every argument tuple from a pool. `==` is evaluated on all of S x S and must coincide with "
+          "structural equality of independently computed full expansions (which makes it an equivalence on S); every "
+          "operation (evar_is_free, metavars, apply_esubst/ssubst, instantiate, match_single on either side, unwrap/extract, "
+          "deconstruct, deconstruct_nary_application) must give equal results on a pattern and on its expansion."),
+    note='Trusted: mc/bridge.py expand() as the independent expansion. Bounds: size 3/4, argument pool 4/5.',
+    technique='bounded-exhaustive enumeration of pattern pairs and operation arguments against an expansion oracle',
+    design='5/C12',
+)
+CHECKS['C13'] = dict(
+    level='exploration',
+    text=("Bounded-exhaustive: all ordered (pattern, instance) pairs of the C12 universe with three seed substitutions "
+          "(soundness, seed preservation, agreement with a reference matcher); every substitution-free pattern x every "
+          "map into a 9-element pool (completeness, incl. the empty solution, also through the list form match()); all "
+          "equation lists up to length 2/3 over 14 equations; every shipped notation x argument tuple through "
+          "matches/assert_matches (incl. arity 0 and the notation-free expansion)."),
+    note='Trusted: reference matcher in mc/c13.py on independently expanded terms; no completeness claim for patterns with pending substitutions.',
+    technique='bounded-exhaustive enumeration against a reference matcher',
+    design='5/C13',
+)
+
 NOT_YET = {
 }
 
